@@ -377,7 +377,9 @@ func c20NewBox(spelling func(parent string) string) *c20Box {
 	return b
 }
 
-func (b *c20Box) outsideDiff() []string { return diskDiffSnapshots(b.before, diskTreeSnapshot(b.parent, b.wd)) }
+func (b *c20Box) outsideDiff() []string {
+	return diskDiffSnapshots(b.before, diskTreeSnapshot(b.parent, b.wd))
+}
 
 // c20CheckListing: every entry of work_dir is an expected store directory or an expected foreign entry; no temp name.
 func c20CheckListing(r *Run, where string, wd string, stores map[string]bool, foreign map[string]bool, needAll bool) {
